@@ -21,7 +21,7 @@ import c16_lib as L
 import c16_worlds as W
 
 LEVEL = "other"
-READY = True
+READY = False
 TARGETS = ["theories/Props/C16.vo", "theories/Extract/ExMdTotal.vo"]
 THEOREMS = ["C16_md_print_ty_exact", "C16_md_print_ty_only_site", "C16_md_generate_exact", "C16_md_partial",
             "C16_md_refuted_anon_fixed_length_list", "C16_md_refuted_named_future", "C16_md_refuted_named_stream",
